@@ -9,6 +9,8 @@ Stateless exploration on the real ``Field.grad / div / curl / laplace``:
   renamed / cyclically permuted dimension names, default / custom labels; the
   reference differentiates the basis analytically and reads operand AND result
   through their mappings (component <-> axis), never through position or label.
+* ``value_types``: complex and integer-typed fields through all four operators,
+  against the operators' own results on the real / imaginary parts (linearity).
 * ``identities``: curl(grad f) = 0 and div(curl v) = 0 on every impulse of every
   fully valid 3-D mesh with 1..3 (4) cells per axis, open / periodic.
 * ``rotation``: op(rotate90(f)) == rotate90(op(f)) for every ordered axis pair,
@@ -29,7 +31,7 @@ RULE = ("poly_scalar: full product ndim(1-4) x cells-per-axis profile x dimensio
         "monomial(deg<=2); poly_vector: full product ndim x dimension names x labels x EVERY mapping permutation x geometry "
         "variant (a list: cells per axis / origin+scale / periodic axis) x component x monomial; combination: full product "
         "ndim x operator x every mapping permutation x names x periodic x validity mask x every impulse (cell x component) "
-        "+ tracer; identities: full product of n in {1..3 (thorough 1..4)}^3 x periodic x geometry x mapping permutation x "
+        "+ tracer; value_types: full product ndim x operator x 2 mappings x {complex, int} x periodic x validity mask; identities: full product of n in {1..3 (thorough 1..4)}^3 x periodic x geometry x mapping permutation x "
         "every impulse + tracer; rotation: full product ndim x operator x every mapping permutation x labels x names x "
         "ordered axis pair x k in 1..3 x periodic axis x validity mask; refusals: full product operator x misfit case. "
         "An execution is non-trivial when at least one oracle comparison ran.")
@@ -639,12 +641,55 @@ def raise_skip():
     from mc import engine
     raise engine.Skip()
 
+def unit_value_types(ctx):
+    """Complex and integer-typed values: op(A + iB) = op(A) + i op(B) and op(int field) = op(float field with the same
+    values), with op(A), op(B) the library's own results on float fields (decided by the other units).  The operators
+    are linear, so the storage type of the values must not matter."""
+    ndim = ctx.choose("ndim", [2, 3, 1])
+    ops = ["grad", "laplace_s"] + (["div", "laplace_v"] if ndim > 1 else ["div"]) + (["curl"] if ndim == 3 else [])
+    op = ctx.choose("op", ops)
+    vector = op in ("div", "laplace_v", "curl")
+    perms = list(itertools.permutations(range(ndim)))
+    perm = ctx.choose("mapping", [perms[0], perms[-1]] if len(perms) > 1 else perms) if vector else None
+    kind = ctx.choose("values", ["complex", "int"])
+    per = ctx.choose("periodic", [None, (ndim - 1,)])
+    mask = ctx.choose("valid", ["all", "coded"])
+    n = {1: [5], 2: [4, 3], 3: [4, 3, 2]}[ndim]
+    dims = _dims(ndim, "default")
+    mesh = _mesh(n, dims, GEOMS[0], per)
+    nv = ndim if vector else 1
+    a = C.tracer(n, nv, ctx.seed)
+    b = C.tracer(n, nv, ctx.seed + 1)[..., ::-1]
+    valid = np.ones(n, dtype=bool) if mask == "all" else C.coded_mask(tuple(n), 5)
+
+    def mk(vals, **kw):
+        if vector:
+            return _vector_field(ctx, mesh, ndim, "default", perm, vals, valid=valid, **kw)[0]
+        return df.Field(mesh, nvdim=1, value=vals, valid=valid, **kw)
+
+    ctx.step(3, op)
+    ra = OPS[op](mk(a)).array
+    inst = ctx.key()
+    if kind == "complex":
+        rb = OPS[op](mk(b)).array
+        got = OPS[op](mk(a + 1j * b, dtype=complex)).array
+        exp = ra + 1j * rb
+    else:
+        got = OPS[op](mk(a.astype(int), dtype=int)).array
+        exp = ra
+    ctx.observe(np.round(np.abs(got) / (np.abs(exp).max() or 1.0), 9))
+    cell = min(float(c) for c in mesh.cell)
+    scale = float(np.abs(a).max() + np.abs(b).max()) / cell ** (2 if op.startswith("laplace") else 1)
+    _cmp(ctx, got, exp, scale, f"Field.{op}/value-type/{kind}",
+         f"{op} of a {kind}-typed field differs from the same operator on its real and imaginary parts / its float copy", inst)
+
 
 def units(tier):
     return [
         {"name": "poly_scalar", "fn": unit_poly_scalar, "bound": None},
         {"name": "poly_vector", "fn": unit_poly_vector, "bound": None},
         {"name": "combination", "fn": unit_combination, "bound": None},
+        {"name": "value_types", "fn": unit_value_types, "bound": None},
         {"name": "identities", "fn": unit_identities, "bound": None},
         {"name": "rotation", "fn": unit_rotation, "bound": None},
         {"name": "refusals", "fn": unit_refusals, "bound": None},
